@@ -48,6 +48,11 @@ func (a *Analyzer) execCall(ctx int, v *ssa.Call, s *State, depth int) []*State 
 		}
 		return []*State{s}
 	case "builtin.cap":
+		if x, ok := a.val(s, ctx, args[0]).(AStr); ok && a.CapIsLen != nil && a.CapIsLen(v) {
+			// the slice is known to be allocated with len == cap and never re-sliced
+			a.set(s, ctx, v, AInt{x.n})
+			return []*State{s}
+		}
 		r := setFresh().(AInt)
 		if x, ok := a.val(s, ctx, args[0]).(AStr); ok {
 			s.addLE(x.n.sub(r.l))
